@@ -84,8 +84,11 @@ CHECKS = {
         text="Model/Expand.v includes check_template_need_expand, re-emission of unselected calls, the expand_parserfns "
              "switch and template_fn/post_template_fn; it is compared with Wtp.expand on generated libraries x selections x "
              "switches x hook tables (outputs inside Coq; hook logs against the reference semantics). Proved: the selection "
-             "rule as a single formula and its corollaries. PARTIAL: the identity corollary (nothing selected -> text "
-             "unchanged) and exactness of re-emission are decided per run, not proved.",
+             "rule as a single formula and its corollaries; c13_nothing_selected_identity: with pre_expand, every page of text, "
+             "links and calls that are left alone (plain names, no colon, not a parser function, not selected) comes back "
+             "exactly as written, every call re-emitted with the same name and arguments (Proofs/IdentityProofs.v, any "
+             "nesting). PARTIAL: hook clauses, parser-function re-emission and template arguments/nowiki on the page are "
+             "decided per run (the latter two are known deviations).",
         note=TRUST + "regex-based _encode/_finalize_expand glue under the diff; hooks are harness-supplied tables.",
         ref="DESIGN.md section 4 C13"),
     "C15": dict(
